@@ -83,6 +83,13 @@ func (o *objectGoSliceReflect) setOwnStr(name unistring.String, val Value, throw
 
 func (o *objectGoSliceReflect) defineOwnPropertyStr(name unistring.String, descr PropertyDescriptor, throw bool) bool {
 	if name == "length" {
+		if descr.Writable == FLAG_FALSE {
+			// (assignments to length and to indices beyond it do not consult the attribute, so it cannot be given up)
+			o.val.runtime.typeErrorResult(throw, "Cannot make the length of a Go slice read-only")
+			return false
+		}
+		// the length property's value is computed on demand: bring it up to date for the comparison with the new length
+		o.updateLen()
 		return o.val.runtime.defineArrayLength(&o.lengthProp, descr, o.putLength, throw)
 	}
 	return o.objectGoArrayReflect.defineOwnPropertyStr(name, descr, throw)
